@@ -399,8 +399,16 @@ func report(e *Engine, prop, tier string, seed int, verif string, results []*Fun
 			}
 		}
 	}
+	// a function with a failed obligation assumes that obligation's goal afterwards: its paths may then well be
+	// inconsistent, which says nothing about the contract (the failure itself is reported)
+	failedFunc := map[string]bool{}
+	for _, o := range obs {
+		if o.Status != "discharged" {
+			failedFunc[o.Func] = true
+		}
+	}
 	for k := range canarySeen {
-		if !canaryOK[k] {
+		if !canaryOK[k] && !failedFunc[shortKeyOf(k)] && !failedFunc[k] {
 			vacuous = append(vacuous, k+": canary proved on every return path (inconsistent assumptions)")
 		}
 	}
@@ -480,7 +488,14 @@ func report(e *Engine, prop, tier string, seed int, verif string, results []*Fun
 				missing++
 			}
 		}
-		if len(order) < len(exp.Discharged)/2 {
+		anyFailed := false
+		for _, o := range obs {
+			if o.Status != "discharged" {
+				anyFailed = true
+			}
+		}
+		// (after a failed obligation the rest of its paths is cut: fewer obligations are then expected, and the failure is reported)
+		if len(order) < len(exp.Discharged)/2 && !anyFailed && len(funcErrs) == 0 {
 			fmt.Fprintf(os.Stderr, "obligation count collapsed: %d generated, %d expected\n", len(order), len(exp.Discharged))
 			exit = 2
 		}
